@@ -72,7 +72,7 @@ def roots(tier, seed):
     for n in ns:
         for pats in [("free",) * n, ("wide",) * n]:
             for cons in ["none", "lin_le", "ball_le", "ball_eq"]:
-                for nan in ["half", "outball", "inball"]:
+                for nan in ["half", "outball", "inball", "everywhere"]:
                     for obj in ["quad", "lin"]:
                         case = alpha.base_case(n, pats, "in", obj, cons, nan=nan)
                         case["explore"] = 0
@@ -183,7 +183,7 @@ def run_malformed(case):
 
 
 def _stats(rec, table, stats):
-    if rec.res is not None and rec.ndev:
+    if rec.res is not None:
         f, m = float(rec.res.fun), float(rec.res.maxcv)
         if f != f or m != m:
             stats["nan_results"] = stats.get("nan_results", 0) + 1
